@@ -152,6 +152,8 @@ func c07(tier string) []*explore.Scenario {
 	// the same cancellations on a connection with a history
 	out = append(out, withHistory(historyKinds(tier), pickScenarios(out, "cancel/pingpong/at=2/cap=64/others=0/ctxrace=false/deadline=false", "cancel/sendall/at=3/cap=0/others=0/ctxrace=false/deadline=false",
 		"unread/m=2/read=1/other=false", "deadline/rounds=1/deaf=false", "predone/Bidi")...)...)
+	out = append(out, withConfig(configKinds(tier), pickScenarios(out, "cancel/pingpong/at=2/cap=64/others=0/ctxrace=false/deadline=false", "cancel/sendall/at=3/cap=0/others=0/ctxrace=false/deadline=false",
+		"unread/m=2/read=1/other=false", "deadline/rounds=1/deaf=false", "predone/Bidi")...)...)
 	return out
 }
 
